@@ -102,7 +102,7 @@ def run(tier, seed):
     # 2. generated streams
     members = {}
     plan = [("lbo", 150 if quick else 500), ("json", 2000 if quick else 12000),
-            ("query", 0), ("tokens", 0), ("yaml", 0)]
+            ("query", 0), ("tokens", 0), ("modules", 0), ("yaml", 0)]
     for name, n in plan:
         cases, mism, smism, st = stream(c, exe_m, name, n, tier, seed)
         stats[name] = st
@@ -132,8 +132,8 @@ def run(tier, seed):
         # implementation-only oracles of the harness (lexer_offset_token)
         for v in (st.get("impl_violations") or []):
             what = ("ParseError Offset/Token or the command's caret do not identify the rejected token"
-                    if v.startswith("token-position") else "ParseError Offset/Token do not identify the offending token")
-            m = re.search(r" (q=\".*)$", v)
+                    if v.startswith("token-position") or v.startswith("module-position") else "ParseError Offset/Token do not identify the offending token")
+            m = re.search(r" ((?:q|file)=\".*)$", v)
             c.failing_input(what, (v.split(" :: ")[0] + " " + m.group(1)) if m else v, v)
 
     # 3. thorough: the built binary with real files and pipes
@@ -176,7 +176,11 @@ RULE = ("lbo: getLineByOffset through the hook on generated multi-line strings (
         ".foo, strings, interpolated-string openings) x 7 rejecting contexts (3 where the grammar admits a single token, "
         "after an operator, after a complete term; multi-line prefixes) x 3 continuations (end of query, more tokens, new "
         "line) x <arg>/-f: Offset/Token must be exactly the token from the harness table, caret column = display width "
-        "before its first byte; yaml: 10 faults at character positions of 3 documents; "
+        "before its first byte; modules: the rejected-token placements inside module files (import, include, ~/.jq) and -f "
+        "files with 8 prefixes (UTF-8 BOM, comments, CR LF / CR lines, multi-byte and wide text on the same line): file name, "
+        "line, excerpt and caret against the token's first byte in the file's bytes; data modules (.json with an injected "
+        "fault, incl. BOM) through the compile-error path, judged by model and spec; yaml (LF/CRLF/CR, NEL/LS/PS in "
+        "quoted and plain scalars and comments, tabs, BOM, wide text): 10 faults at character positions of 3 documents; "
         "every case judged by the extracted model (exact stderr header) and by the specification oracle; "
         "distinct = distinct case lines")
 
